@@ -10,6 +10,7 @@ source.
 import os
 import sys
 import wave
+from fractions import Fraction
 
 from simkit import sources
 from simkit.tape import mix
@@ -82,7 +83,9 @@ class Engine:
             elif k == "pos_s":
                 ops.append(["pos_s", T.between(-70, 70), T.choice([1, 2, 4, 3, 10])])
             elif k == "pos_ms":
-                ops.append(["pos_ms", T.between(-70, 70), T.choice([1, 10, 100, 1000, 37])])
+                ops.append(["pos_ms", T.between(-70, 70),
+                            T.choice([1, 10, 100, 1000, 37]), T.draw(4),
+                            T.draw(2000)])
             else:
                 ops.append([k])
         return {"prop": prop, "fmt": [sw, ch, sr], "length": length,
@@ -295,28 +298,39 @@ class Engine:
                             t = xt / sr
                             attr = "position_s"
                             val = t
+                            xq = Fraction(t) * sr
                         else:
-                            msv = int(round(xt * 1000 / sr))
+                            span = (L + 3) * 1000 // sr + 2
+                            mode = op[3] if len(op) > 3 else 0
+                            if mode == 0:
+                                msv = int(round(xt * 1000 / sr))
+                            elif mode == 1:      # any millisecond in range
+                                msv = op[4] % (2 * span + 1) - span
+                            else:                # whole-sample milliseconds
+                                k = op[4] % (2 * L + 5) - (L + 2)
+                                msv = k * 1000 // sr if (k * 1000) % sr == 0 \
+                                    else op[4] % (2 * span + 1) - span
                             t = msv / 1000.0
                             attr = "position_ms"
                             val = msv
+                            xq = Fraction(msv * sr, 1000)
                         before = m["cur"]
                         r = call(lambda: setattr(s, attr, val))
                         trace.append([i, kind, attr + "=", val, r[0],
                                       _short(r[1])])
                         fl["seek"] += 1
-                        x = t * sr  # requested instant in samples
-                        if x < 0 and x > -1:
+                        x = float(xq)  # requested instant in samples (exact)
+                        if xq < 0 and xq > -1:
                             # sub-sample negative instant: unspecified
                             m["cur"] = s.position
                             continue
                         tgt = x if x >= 0 else L + x
+                        tgtq = xq if xq >= 0 else L + xq   # exact
                         if r[0] == "exc":
                             if not isinstance(r[1], IndexError):
                                 return V("C11.3", "%s = %r raised %r" % (
                                     attr, val, r[1]), "C11.3:seek_exc_type")
-                            if -1 < tgt < L + 1 and 0 <= round(tgt) <= L \
-                                    and abs(tgt - round(tgt)) < 1e-6:
+                            if tgtq.denominator == 1 and 0 <= tgtq <= L:
                                 return V("C11.3", "%s = %r (sample %.3f of "
                                          "%d) raised IndexError although in "
                                          "range" % (attr, val, tgt, L),
@@ -327,13 +341,23 @@ class Engine:
                                          "C11.3:seek_fail_moves")
                             continue
                         # accepted: must be within one sample of the instant
-                        if tgt <= -1 or tgt >= L + 1:
+                        if tgtq <= -1 or tgtq >= L + 1:
                             return V("C11.3", "%s = %r (sample %.3f, length "
                                      "%d) accepted instead of IndexError" % (
                                          attr, val, tgt, L),
                                      "C11.3:seek_range")
                         p = s.position
-                        if not (abs(p - tgt) < 1 + 1e-6 and 0 <= p <= L):
+                        if xq.denominator == 1:
+                            # the instant is exactly a sample boundary: no
+                            # rounding question, the read must start there
+                            want_p = int(xq) if xq >= 0 else L + int(xq)
+                            if p != want_p:
+                                return V("C11.3", "%s = %r is exactly sample "
+                                         "%d (rate %d) but the next read "
+                                         "starts at sample %d" % (
+                                             attr, val, want_p, sr, p),
+                                         "C11.3:seek_exact")
+                        if not (abs(p - tgtq) < 1 and 0 <= p <= L):
                             return V("C11.3", "%s = %r: next read starts at "
                                      "sample %d, requested instant is sample "
                                      "%.3f" % (attr, val, p, tgt),
